@@ -277,7 +277,8 @@ func c16Conc(c *Ctx, name string, b vsched.Bounds) Sched {
 		Opt:    vsched.Options{TolerateDivergence: true},
 		Bounds: b,
 		Setup: func() ([]func(), func(*vsched.Exec) *vsched.Violation, func() string) {
-			vsched.IOPoints = true // the real proxy is in the loop: its hand-over to the network is a scheduling point
+			vsched.IOPoints = true        // the real proxy is in the loop: its hand-over to the network is a scheduling point
+			vsched.PostStorePoints = true // update() publishes registry entries with sync.Map.Store: the moment right after each Store is a point too
 			if origin == nil {
 				// no keep-alive: every execution builds new upstream objects (new transports); idle connections
 				// would otherwise pile up until the file-descriptor limit is reached
